@@ -299,6 +299,35 @@ def to_nucs(P):
     return prob
 
 
+def to_nucs_incremental(P, r=None):
+    """The same model written through the incremental API: the first shared domains through the constructor, the
+    remaining variables one by one (add_variable with an explicit index and offset when the variable shares an existing
+    domain - the API then appends a placeholder domain, given here as a singleton), constraints through add_propagators."""
+    import random as _random
+
+    import nucs.propagators.propagators as pp
+    from nucs.problems.problem import Problem
+
+    r = r or _random.Random(0)
+    nd = len(P["doms"])
+    # variables 0..nd-1 are the shared domains themselves in every generated problem
+    k0 = r.randint(1, nd)
+    prob = Problem([tuple(d) for d in P["doms"][:k0]])
+    for v in range(k0, nd):
+        if r.random() < 0.5:
+            prob.add_variable(tuple(P["doms"][v]))
+        else:
+            prob.add_variables([tuple(P["doms"][v])])
+    for v in range(nd, len(P["vidx"])):
+        prob.add_variable((0, 0), P["vidx"][v], P["voff"][v])       # shares domain vidx[v]; (0, 0) is the placeholder
+    props = [(list(c["vars"]), getattr(pp, "ALG_" + c["alg"].upper()), list(c["params"])) for c in P["props"]]
+    cut = r.randint(0, len(props))
+    for pr in props[:cut]:
+        prob.add_propagator(pr)
+    prob.add_propagators(props[cut:])
+    return prob
+
+
 def alg_names():
     import nucs.propagators.propagators as pp
 
